@@ -38,8 +38,11 @@ RULE = (
     "the unflushed traceback messages still in messages, every serialize() snapshot is a correctly serialised, in-order "
     "selection of written messages, no thread raised, every written message appears exactly once when no reset ran. Facet "
     "file: 2-4 threads x 1-3 messages through one FileDestination (binary or text) onto a real file behind a Python-level "
-    "raw file (each write() call is a yield point, writelines() falls back to write() like io.IOBase); oracle: the multiset "
-    "of lines equals the multiset of expected serialisations - none torn, merged, or missing. Facet free-running: 4-8 real "
+    "raw file (each write() call is a yield point, writelines() falls back to write() like io.IOBase), plain or seekable, "
+    "optionally refusing the write of chosen messages with OSError; oracle: the multiset of lines equals the multiset of "
+    "expected serialisations of the messages whose write was not refused - none torn, merged, or missing. When validate() "
+    "races serialize() (no tracebacks/reset in the mix) every snapshot must be a view from entirely before or entirely "
+    "after the validate. Facet free-running: 4-8 real "
     "threads x 300-2000 writes without tracing, same oracles. Non-trivial: a plan that preempts a worker between two "
     "consecutive _output.py lines of one operation (or between two write() calls). Distinct = canonical JSON of the case."
 )
@@ -84,7 +87,11 @@ def _sanitize_ops(threads_ops):
             keep.append(op)
         out.append(keep)
     if has_validate:
-        out = [[op for op in ops if op[0] != "serialize"] for ops in out]
+        kinds = set(op[0] for ops in out for op in ops)
+        if kinds & {"tb", "reset", "write_invalid"}:
+            out = [[op for op in ops if op[0] != "serialize"] for ops in out]
+        # otherwise validate and serialize may race: every serialize() snapshot must then be a view from entirely
+        # before or entirely after the validate (see the snapshot oracle)
     return out
 
 
@@ -191,7 +198,20 @@ def check_memorylogger(case):
             if not had_reset and d["who"] in order:
                 require(order[d["who"]] > last, "snapshot-order", "serialize() snapshot out of order")
                 last = order[d["who"]]
-    inside = s.switched_inside(("write", "validate", "serialize", "reset", "flushTracebacks", "_validate_message", "exclusively_f"))
+    has_validate = any(op[0] == "validate" for ops in threads_ops for op in ops)
+    if has_validate and snapshots:
+        # validate() serialised the messages it saw in place; they are the ones stored in serialised form now
+        validated = set(m["who"] for m in msgs if isinstance(m.get("v"), list))
+        for snap in snapshots:
+            in_snap = set(d["who"] for d in snap)
+            twice = set(d["who"] for d in snap if isinstance(d["v"][1], list))
+            require(
+                not twice or (twice == validated and validated <= in_snap),
+                "snapshot-mixes-two-states",
+                lambda: "serialize() returned a view that never existed: messages %r as after validate(), %r as before it, validate() covered %r"
+                % (sorted(twice), sorted(in_snap - twice), sorted(validated)),
+            )
+    inside = s.switched_inside(("write", "validate", "serialize", "reset", "flushTracebacks", "_validate_message", "exclusively_f", "_snapshot"))
     return {"steps": s.steps, "switches": len(s.switches), "switch_inside": len(inside), "reset": had_reset, "ops": sum(len(o) for o in threads_ops)}
 
 
@@ -249,6 +269,13 @@ def ml_enum_runner(mod, facet, tier, seed, shard, nshards, stats):
             cases.append({"plan": [[k, 0], [j, 1], [10**6, 0]], "threads": [[["tb", 0]], [["flush", 0]]]})
     for k in range(0, 200 if tier == "thorough" else 140):
         cases.append({"plan": [[k, 0], [10**6, 1]], "threads": [[["write_invalid", 0, 1], ["validate"], ["write", 1, 2]], [["write", 2, 3]]]})
+    # serialize() racing validate() over several stored messages: preempt the validating thread at every line
+    vs_mix = [[["write", 0, 1], ["write", 1, 2], ["write", 2, 3], ["validate"]], [["serialize"]]]
+    for k in range(0, 150 if tier == "thorough" else 110):
+        cases.append({"plan": [[k, 0], [10**6, 1]], "threads": vs_mix})
+        if k % 3 == 0:
+            for j in (3, 8, 14):
+                cases.append({"plan": [[k, 0], [j, 1], [10**6, 0]], "threads": vs_mix})
     for mix in mixes:
         n = len(mix)
         depth = 45 if tier == "thorough" else 30
@@ -270,14 +297,34 @@ def ml_enum_runner(mod, facet, tier, seed, shard, nshards, stats):
 class RawFile(io.RawIOBase):
     """Python-level raw file: every write() is visible to the scheduler."""
 
-    def __init__(self, path, text):
+    def __init__(self, path, text, seekable=False, fail_tokens=()):
         io.RawIOBase.__init__(self)
-        self._f = open(path, "ab", buffering=0)
+        self._f = open(path, "ab" if not seekable else "r+b", buffering=0)
         self._text = text
+        self._seekable = seekable
+        self._fail = [t.encode("ascii") for t in fail_tokens]
         self.calls = []
 
     def writable(self):
         return True
+
+    def seekable(self):
+        return self._seekable
+
+    def tell(self):
+        if not self._seekable:
+            raise OSError("not seekable")
+        return self._f.tell()
+
+    def seek(self, pos, whence=0):
+        if not self._seekable:
+            raise OSError("not seekable")
+        return self._f.seek(pos, whence)
+
+    def truncate(self, size=None):
+        if not self._seekable:
+            raise OSError("not seekable")
+        return self._f.truncate(size)
 
     def write(self, data):
         if self._text:
@@ -290,6 +337,11 @@ class RawFile(io.RawIOBase):
             raw = bytes(data)
         who = getattr(sched._tls, "wid", None)
         self.calls.append((who, len(raw)))
+        if any(t in raw for t in self._fail):
+            # the device refuses this write; nothing is written
+            raise OSError(28, "No space left on device")
+        if self._seekable:
+            self._f.seek(0, 2)
         self._f.write(raw)
         return len(data)
 
@@ -310,7 +362,9 @@ def check_file(case):
     text = bool(case["text"])
     tmp = tempfile.NamedTemporaryFile(prefix="c16-", delete=False)
     tmp.close()
-    raw = RawFile(tmp.name, text)
+    failing = ["W%d.%dW" % (t, k) for t, k in case.get("fail", [])]
+    raw = RawFile(tmp.name, text, bool(case.get("seekable")), failing)
+    refused = []
     try:
         dest = FileDestination(file=raw)
         del raw.calls[:]
@@ -319,7 +373,14 @@ def check_file(case):
         def worker(tid, payloads):
             def run():
                 for k, p in enumerate(payloads):
-                    m = {"who": "%d.%d" % (tid, k), "p": p, "task_uuid": "u%d" % tid, "task_level": [k + 1], "timestamp": 1.0, "message_type": "c16"}
+                    m = {"who": "W%d.%dW" % (tid, k), "p": p, "task_uuid": "u%d" % tid, "task_level": [k + 1], "timestamp": 1.0, "message_type": "c16"}
+                    if m["who"] in failing:
+                        # the write of this message fails (and raises to its caller); the others must be unaffected
+                        try:
+                            dest(m)
+                        except OSError:
+                            refused.append(m["who"])
+                        continue
                     msgs[m["who"]] = m
                     dest(m)
 
@@ -339,7 +400,7 @@ def check_file(case):
         os.unlink(tmp.name)
     verify_lines(content, msgs)
     inside = s.switched_inside(("__call__", "write"))
-    return {"steps": s.steps, "switches": len(s.switches), "switch_inside": len(inside), "writes": len(raw.calls)}
+    return {"steps": s.steps, "switches": len(s.switches), "switch_inside": len(inside), "writes": len(raw.calls), "refused": len(refused)}
 
 
 def verify_lines(content, msgs):
@@ -360,14 +421,20 @@ def classify_file(case, info):
     labels = ["threads=%d" % len(case["threads"]), "text" if case["text"] else "binary", "switches=%d" % min(info["switches"], 6)]
     if info["switch_inside"]:
         labels.append("preempted-inside-write-path")
+    if case.get("seekable"):
+        labels.append("seekable-file")
+    if info.get("refused"):
+        labels.append("a-write-refused-by-the-device")
     return info["switch_inside"] >= 1, labels
 
 
 def file_strategy():
     payload = st.one_of(st.integers(0, 99), st.text(max_size=8), st.just("x" * 9000))
     return st.builds(
-        lambda text, plan, threads: {"text": text, "plan": plan, "threads": threads},
+        lambda text, seekable, fail, plan, threads: {"text": text, "seekable": seekable, "fail": fail, "plan": plan, "threads": threads},
         st.booleans(),
+        st.booleans(),
+        st.one_of(st.just([]), st.lists(st.tuples(st.integers(0, 3), st.integers(0, 1)).map(list), max_size=2)),
         sched.plans(max_segments=8, max_steps=12, workers=4),
         st.lists(st.lists(payload, min_size=1, max_size=3), min_size=2, max_size=4),
     )
@@ -381,6 +448,9 @@ def file_enum_runner(mod, facet, tier, seed, shard, nshards, stats):
         for threads in ([[1], [2]], [[1, 2], [3]], [["x" * 9000], [5]]):
             for plan in sched.single_preemption_plans(2, 14):
                 cases.append({"text": text, "plan": plan, "threads": threads})
+        # one thread's write is refused by a seekable file while the other thread writes
+        for plan in sched.single_preemption_plans(2, 24):
+            cases.append({"text": text, "seekable": True, "fail": [[0, 0]], "plan": plan, "threads": [[1, 2], [3]]})
     stats.extra["enumerated_plans"] = len(cases)
     enumerate_cases(mod, facet, cases, shard, nshards, stats, exhaustive=True)
 
